@@ -506,6 +506,10 @@ pub fn run(sc: &SchedScenario) -> Vec<(Backend, RunResult)> {
         res.counters.insert("scheduled_from_task".into(), model.scheduled_from_task);
         res.counters.insert("scheduled_from_dsp".into(), model.scheduled_from_dsp);
         res.counters.insert("scheduled_from_main".into(), sc.prog.initials.len() as u64);
+        res.counters.insert(
+            "tasks_from_main_due_4800_or_more_samples_ahead_that_fired".into(),
+            sc.prog.initials.iter().filter(|(_, at)| *at >= 4800.0 && (*at as u64) < t).count() as u64,
+        );
         res.counters.insert("fractional_times".into(), model.fractional_times);
         res.counters.insert("wasm_alloc_hazard_runs".into(), model.wasm_alloc_hazard as u64);
         // WASM: a closure passed to `@` by run-time code lives in bump memory that is reclaimed when
@@ -604,7 +608,31 @@ pub fn gen_c11(seed: u64) -> SchedScenario {
     let mono = family == 1 || r_cfg.chance(1, 2);
     let total = *r_cfg.pick(&[64u64, 128, 256, 256, 512, 1024, 2048, 20000]);
     let max_delay = *r_cfg.pick(&[1u64, 3, 8, 31, 97]);
+    // one run in six schedules seconds ahead and at musically round times (a beat, a bar, a second
+    // at 48 kHz and their multiples, on the sample or one off): lead times of thousands of samples,
+    // where a queue that treats near and far tasks differently would change its behaviour
+    let mut r_long = root.sub("long-leads");
+    let f_long = r_long.chance(1, 6);
+    let (total, max_delay) = if f_long {
+        (*r_long.pick(&[20000u64, 30000, 50000]), *r_long.pick(&[2400u64, 4800, 5000, 9600, 12000]))
+    } else {
+        (total, max_delay)
+    };
+    const ROUND: [u64; 10] = [1200, 2400, 4800, 7200, 9600, 12000, 14400, 19200, 24000, 48000];
+    let round_delay = |rng: &mut Rng| -> f64 {
+        let base = *rng.pick(&ROUND);
+        let base = if base > max_delay { max_delay } else { base };
+        match rng.below(6) {
+            0 => (base + 1) as f64,
+            1 => (base.max(2) - 1) as f64,
+            2 => base as f64 + 0.5,
+            _ => base as f64,
+        }
+    };
     let n_tasks = r_cfg.range(1, 8) as usize;
+    let gen_delay = |rng: &mut Rng, max: u64| -> f64 {
+        if f_long && rng.chance(2, 3) { round_delay(rng) } else { gen_delay(rng, max) }
+    };
     let mut tasks: Vec<TaskDef> = vec![];
     let mut has_period: Vec<bool> = vec![];
     let mut terminating: Vec<bool> = vec![];
@@ -660,7 +688,16 @@ pub fn gen_c11(seed: u64) -> SchedScenario {
     let common_time = r.range(1, horizon - 1) as f64;
     for _ in 0..n_init {
         let t = r.below(n_tasks as u64) as usize;
-        let at = if f_equal_times && r.chance(1, 2) {
+        let at = if f_long && r.chance(2, 3) {
+            let base = *r.pick(&ROUND);
+            let base = if base + 2 >= total { 2400 } else { base };
+            match r.below(6) {
+                0 => (base + 1) as f64,
+                1 => (base - 1) as f64,
+                2 => base as f64 + 0.5,
+                _ => base as f64,
+            }
+        } else if f_equal_times && r.chance(1, 2) {
             common_time
         } else {
             let w = r.range(1, horizon - 1) as f64;
